@@ -153,6 +153,9 @@ pub struct GlobalMonoEnv {
     pub mono_enums: IndexMap<TastIdent, EnumDef>,
     pub mono_structs: IndexMap<TastIdent, StructDef>,
     pub mono_funcs: IndexMap<String, Ty>,
+    /// For a type coerced to `dyn`, the type as the impl was written for it (`Box[int32]`), keyed
+    /// by its collapsed form (`Box__int32`): trait impl functions are named after the former.
+    pub dyn_impl_tys: IndexMap<Ty, Ty>,
 }
 
 impl GlobalMonoEnv {
@@ -162,6 +165,7 @@ impl GlobalMonoEnv {
             mono_enums: IndexMap::new(),
             mono_structs: IndexMap::new(),
             mono_funcs: IndexMap::new(),
+            dyn_impl_tys: IndexMap::new(),
         }
     }
 
@@ -1140,12 +1144,20 @@ fn rewrite_expr_types(e: MonoExpr, m: &mut TypeMono<'_>) -> MonoExpr {
             for_ty,
             expr,
             ty,
-        } => MonoExpr::EToDyn {
-            trait_name,
-            for_ty: m.collapse_type_apps(&for_ty),
-            expr: Box::new(rewrite_expr_types(*expr, m)),
-            ty: m.collapse_type_apps(&ty),
-        },
+        } => {
+            let collapsed_for_ty = m.collapse_type_apps(&for_ty);
+            if collapsed_for_ty != for_ty {
+                m.monoenv
+                    .dyn_impl_tys
+                    .insert(collapsed_for_ty.clone(), for_ty);
+            }
+            MonoExpr::EToDyn {
+                trait_name,
+                for_ty: collapsed_for_ty,
+                expr: Box::new(rewrite_expr_types(*expr, m)),
+                ty: m.collapse_type_apps(&ty),
+            }
+        }
         MonoExpr::EDynCall {
             trait_name,
             method_name,
